@@ -128,6 +128,10 @@ func codecFinish(pd codecPending) (res string) {
 }
 
 func runCodec(args []string) {
+	if len(args) >= 3 && args[0] == "conc" {
+		runCodecConc(args[1:])
+		return
+	}
 	in := bufio.NewScanner(os.Stdin)
 	in.Buffer(make([]byte, 1<<20), 1<<26)
 	out := bufio.NewWriter(os.Stdout)
